@@ -85,6 +85,15 @@ def make_fn(spec):
         return lambda x: int(_int(x) > k)
     if name == "truthy":
         return lambda x: int(bool(x))
+    if name == "bucketNone":
+        def bucket_none(x):
+            if x is None:
+                return 0
+            _int(x)
+            if k == 0:
+                raise ValueError("k")
+            return x % k
+        return bucket_none
     if name == "failPred":
         def fail_pred(x):
             _int(x)
